@@ -23,7 +23,8 @@ ASSUMPTIONS = ['the peer answers each complete command line immediately and in o
 class ReactivePeer(object):
     """In-memory downstream: parses what the client sends and only then owes the scripted replies."""
 
-    def __init__(self, script, chunks, lmtp):
+    def __init__(self, script, chunks, lmtp, emptysep=False):
+        self.emptysep = emptysep
         self.script = list(script)      # list of (code, [lines]) consumed in order
         self.slot = 0
         self.chunks = list(chunks) or [4096]
@@ -44,7 +45,11 @@ class ReactivePeer(object):
         for l in lines[:-1]:
             out.append(('%s-%s\r\n' % (code, l)).encode('utf-8'))
         # a final line without text is sent as the bare code (RFC 5321 4.2: Reply-code [ SP textstring ] CRLF)
-        out.append(('%s %s\r\n' % (code, lines[-1])).encode('utf-8') if lines[-1] else ('%s\r\n' % code).encode('ascii'))
+        # ... or, like many servers, as the code followed by the separator alone
+        if lines[-1] or self.emptysep:
+            out.append(('%s %s\r\n' % (code, lines[-1])).encode('utf-8'))
+        else:
+            out.append(('%s\r\n' % code).encode('ascii'))
         return b''.join(out)
 
     def _owe(self, command):
@@ -146,7 +151,7 @@ def steps(case, result):
     """Generator form of one client conversation: yields after every API call; appends (failures, nontrivial) to `result`."""
     lmtp = case['lmtp']
     script = [(c, list(l)) for c, l in case['script']]
-    peer = ReactivePeer(script, case['chunks'], lmtp)
+    peer = ReactivePeer(script, case['chunks'], lmtp, bool(case.get('emptysep')))
     client = (LmtpClient if lmtp else Client)(peer, ('peer', 25))
     out = []
     returned = []        # (call name, Reply)   in call order == wire order
@@ -298,7 +303,7 @@ def reply_for(draw, slot, force=None):
     esc = esc_for(code)
     if esc:
         lines[0] = '%s.%d.%d %s' % (esc, draw(st.integers(0, 9)), draw(st.integers(0, 9)), lines[0])
-    if draw(st.integers(0, 9)) == 0:
+    if draw(st.integers(0, 5)) == 0:
         if n == 1:
             lines = ['']                # the whole reply is the bare code
         else:
@@ -369,7 +374,8 @@ def case_strategy(draw):
             add(['custom', 'VRFY', 'someone'], force=draw(st.sampled_from([None, None, None, '650', '700'])))
     add(['quit'], force=draw(st.sampled_from(['221', '221', '250', '421'])))
     chunks = draw(st.one_of(st.just([4096]), st.just([1]), st.lists(st.integers(1, 40), min_size=1, max_size=6)))
-    return {'lmtp': lmtp, 'pipelining': pipelining, 'calls': calls, 'script': [[c, l] for c, l in script], 'chunks': chunks}
+    return {'lmtp': lmtp, 'pipelining': pipelining, 'calls': calls, 'script': [[c, l] for c, l in script], 'chunks': chunks,
+            'emptysep': draw(st.booleans())}
 
 
 def run_shard(ctx):
